@@ -400,6 +400,25 @@ fn adversarial(thorough: bool) -> Vec<Value> {
             }
         }
     }
+    // --- substring at every pair of byte offsets of strings with 2-, 3- and 4-byte characters (an offset inside a character
+    //     must skip the string or report an error), the other string functions on the same strings
+    for sv in ["h\u{e9}llo", "a\u{20ac}b", "\u{1f600}x", "caf\u{e9}-bucket", "\u{e9}"] {
+        let n = sv.len();
+        let d = format!("{{\"s\":\"{}\",\"l\":[\"{}\",\"abc\"]}}", sv, sv);
+        for a in 0..=n + 1 {
+            for b in 0..=n + 1 {
+                out.push(lib_case(&format!("rule r {{\n  let x = substring(s, {}, {})\n  %x == \"zz\"\n}}\n", a, b), &d, "function-multibyte"));
+                if (a + b) % 3 == 0 {
+                    out.push(lib_case(&format!("let x = substring(l[*], {}, {})\nrule r {{ %x !empty }}\n", a, b), &d, "function-multibyte"));
+                }
+            }
+        }
+        for call in ["to_upper(s)", "to_lower(s)", "url_decode(s)", "regex_replace(s, \".\", \"-\")", "regex_replace(s, \"(.)\", \"${1}${1}\")", "join(l[*], s)", "parse_char(s)", "parse_int(s)", "json_parse(s)", "parse_epoch(s)"] {
+            out.push(lib_case(&format!("rule r {{\n  let x = {}\n  %x == \"zz\"\n}}\n", call), &d, "function-multibyte"));
+        }
+        out.push(cli_case(&["validate", "-r", "@r.guard", "-d", "@d.json"], json!({"r.guard": "rule r {\n  let x = substring(s, 0, 2)\n  %x == \"zz\"\n}\n", "d.json": d}), "", "function-multibyte"));
+        out.push(cli_case(&["test", "-r", "@r.guard", "-t", "@t.yaml"], json!({"r.guard": "rule r {\n  let x = substring(s, 0, 2)\n  %x == \"zz\"\n}\n", "t.yaml": format!("- name: t\n  input: {}\n  expectations:\n    rules:\n      r: FAIL\n", d)}), "", "function-multibyte"));
+    }
     // --- unary / binary checks on literal variables and odd left-hand sides
     for lit in ["1", "1.5", "\"s\"", "true", "null", "[1,2]", "[]", "{\"k\":1}", "{}", "/re/", "r[1,2]", "r(1.0,2.0)"] {
         for op in ["exists", "!exists", "empty", "!empty", "is_string", "is_list", "is_struct", "is_int", "is_float", "is_bool", "is_null", "== 1", "!= \"s\"", "in [1]", "< 2", ">= \"a\"", "== /x/", "in r[0,5]", "[*] == 1", ".k == 1", "[0] exists", "[ k == 1 ] !empty", "{ this exists }", ".* exists"] {
